@@ -67,10 +67,12 @@ class RegionBoundingBox:
         if iymin > iymax:
             raise ValueError('iymin must be <= iymax')
 
-        self.ixmin = ixmin
-        self.ixmax = ixmax
-        self.iymin = iymin
-        self.iymax = iymax
+        # store Python ints: the arithmetic on the limits (e.g., ``-ixmin``
+        # in get_overlap_slices) wraps around for unsigned NumPy scalars
+        self.ixmin = int(ixmin)
+        self.ixmax = int(ixmax)
+        self.iymin = int(iymin)
+        self.iymax = int(iymax)
 
     @classmethod
     def from_float(cls, xmin, xmax, ymin, ymax):
